@@ -6,7 +6,7 @@
 import Hv.Storage.Chron
 import Hv.Storage.DiskLemmas
 
-namespace Hv.Storage
+namespace Hv.BlockStore
 
 /-- the oracle behaves like the real encoder: non-empty buffers give well-formed blocks that decode to the buffer -/
 def MkOk (mk : Mk) : Prop := ∀ es, es ≠ [] → (mk es).WF ∧ (mk es).ents = es
@@ -209,4 +209,4 @@ theorem closeW_spec (c : Cfg) (mk : Mk) (hmk : MkOk mk) (d : Disk) (w : WSt) (f 
   · intro q hq
     cases c.closeFsyncs <;> simp [Disk.applyAll, Disk.apply] <;> exact hp.other q hq
 
-end Hv.Storage
+end Hv.BlockStore
